@@ -61,6 +61,9 @@ IDS = {
     'numpy-U': lambda n: np.array([f'u{i}é' for i in range(n)]),
     'numpy-int32': lambda n: np.arange(100, 100 + n, dtype='i4'),
     'tuple': lambda n: tuple(f't{i}' for i in range(n)),
+    'numpy-uint64-top': lambda n: np.array(([12345, 2 ** 63, 2 ** 64 - 1, 2 ** 63 - 1, 2 ** 64 - 2, 0] * n)[:n], dtype='u8'),     # e.g. hash-derived ids
+    'numpy-int64-neg': lambda n: np.array(([-1, -2 ** 63, 2 ** 63 - 1, 0, -7, 5] * n)[:n], dtype='i8'),
+    'numpy-uint8': lambda n: np.arange(250, 250 + n, dtype='u1') if n <= 6 else np.arange(n, dtype='u1'),
 }
 
 
@@ -102,7 +105,7 @@ class RoundTrip(core.Family):
         reps = 1 if ctx.tier == 'quick' else 6
         self.rule = ('collections with k in {1,4,5,8,9,16,17,32} (all four index widths; values 0, 4^k-1 and random), prefix length 1..8, '
                      '1..6 signatures incl. all-empty and alternating-empty, containers array / list / annotated wrapper of each, ids '
-                     '{default, ints, 2^62+i, ASCII, Unicode, with empty string, NumPy U / int32 arrays, tuple}, metadata {default, all None, empty strings, Unicode with '
+                     '{default, ints, 2^62+i, ASCII, Unicode, with empty string, NumPy U / int32 / uint8 arrays, uint64 arrays with values >= 2^63, int64 arrays with negative values, tuple}, metadata {default, all None, empty strings, Unicode with '
                      'nested extra, ASCII}, compression {none, gzip 0/1/9, lzf}, widened dtype; dump_signatures -> load_signatures; plus '
                      'indexing of the loaded file with ints, slices, index lists and masks; non-trivial = >= 2 signatures, not all empty')
         ks = [1, 4, 5, 8, 9, 16, 17, 32]
